@@ -303,6 +303,19 @@ def make_resolver(case, on_dicts=None, **kw):
             base.add_node(n, fragname=name)
         for a, b, o in case['base_graph']['edges']:
             base.add_edge(a, b, order=o)
+        from .. import contracts as _c0
+        if _c0.CONTEXT.get('base_graph_used_before') and case.get('virtual') and case['frag_string'].count('{') == 1:
+            # history on the caller's graph OBJECT: first resolved with a fragment library in which the (later) fragment-less
+            # nodes DO have a fragment - they are ordinary nodes joined by order-0 edges then -, afterwards with the library
+            # of the case, in which they are virtual
+            names_ = sorted({base.nodes[v]['fragname'] for v in case['virtual']})
+            first_ = case['frag_string'][:-1] + ''.join(',#%s=%s' % (nm, 'CO' if kw.get('last_all_atom', True) else '[#X][#Y]') for nm in names_) + '}'
+            try:
+                MoleculeResolver.from_graph(first_, base, **kw).resolve()
+                _c0.STATS['base_graph_objects_used_before'] += 1
+                _c0.CONTEXT['first_use_succeeded'] = True
+            except Exception:
+                pass
         return MoleculeResolver.from_graph(case['frag_string'], base, **kw)
     if ctor == 'from_fragment_dicts':
         import re
@@ -1173,9 +1186,17 @@ def random_marked_cut_case(rng, both_sides=False):
     ast, pre = M.base_to_ast(rng, base)
     items = list(frags.items())
     rng.shuffle(items)
+    # which double-bond atom lost its marked substituent to another fragment: the one written first or the one written later
+    pos_ = {a: k for atoms_ in frag_atoms_.values() for k, a in enumerate(atoms_)}
+    first_written = False
+    for s_ in stereo:
+        for l_, a_, o_ in (('l1', 'a1', 'a2'), ('l2', 'a2', 'a1')):
+            if (s_[l_], s_[a_]) in cut_pairs and part[s_[a_]] == part[s_[o_]] and pos_[s_[a_]] < pos_[s_[o_]]:
+                first_written = True
+    extra_feats = ['cut_substituent_of_the_first_written_double_bond_atom'] if first_written else ['cut_substituents_of_later_written_double_bond_atoms_only']
     return dict(kind='marked_cut', base_string=G.to_string(ast), frag_string='{' + ','.join('#%s=%s' % kv for kv in items) + '}',
                 base_graph={'nodes': [[n, base.nodes[n]['fragname']] for n in base.nodes], 'edges': [[a, b, d['order']] for a, b, d in base.edges(data=True)]},
-                ctor='string', features=['cut_through_marked_single_bond', 'double_bonds_%d' % len(stereo)] + (['slash_on_both_sides'] if both_sides else []),
+                ctor='string', features=['cut_through_marked_single_bond', 'double_bonds_%d' % len(stereo)] + (['slash_on_both_sides'] if both_sides else []) + extra_feats,
                 nheavy=len(g), nfrag=len(comps), frag_atoms=frag_atoms_,
                 fully_marked=[[s['a1'], s['a2']] for s in stereo if s['l1'] in lig_marked and s['l2'] in lig_marked],
                 ligands=sorted({s[k] for s in stereo for k in ('l1', 'l2')}))
